@@ -312,7 +312,10 @@ pub fn sweep_scalars() -> Outcome {
     let ct = durs(9);
     cfg.connect_timeout = ct[choose_free(ct.len())];
     cfg.keepalives = [None, Some(true), Some(false)][choose_free(3)];
-    let ki = durs(99);
+    let mut ki = durs(99);
+    // the value tokio_postgres itself defaults to (two hours): set explicitly it
+    // must still win over what the url says
+    ki.push(Some(Duration::from_secs(2 * 60 * 60)));
     cfg.keepalives_idle = ki[choose_free(ki.len())];
     cfg.target_session_attrs = [None, Some(TargetSessionAttrs::Any), Some(TargetSessionAttrs::ReadWrite)][choose_free(3)];
     cfg.channel_binding = [None, Some(ChannelBinding::Disable), Some(ChannelBinding::Prefer), Some(ChannelBinding::Require)][choose_free(4)];
